@@ -14,19 +14,19 @@ def SeqRun' (c : Circuit) (dPort qPort : Name) (n : Nat) (w : Nat → Val) : Pro
 /-- a successful call, unfolded against the mirrored hypotheses -/
 theorem unfold_all {c : Circuit} {bb : BBox} {n : Nat} {d q : Name} {ig : List Name} {afo : Bool}
     {initStr : Option String} {ru : Bool} {pfx : String} {ord : Ord} (hord : OrdOK ord)
-    (G : SeqGood' c bb d q) (hig : d ∉ ig ∧ q ∉ ig) {uc : Circuit} {ioMap : List (Name × List Name)}
+    (G : SeqGood' c bb d q) (K : NoClash c bb ig) (hig : d ∉ ig ∧ q ∉ ig) {uc : Circuit} {ioMap : List (Name × List Name)}
     (h : Tx.sequentialUnroll c n d q ig afo initStr [] ru pfx ord = .ok (uc, ioMap)) :
     ∃ cs0 r, Setup c bb d q ig ru pfx ord n cs0 r ∧ ioMap = r.2 ∧
       uc.edges = r.1.edges ∧ uc.nodeNames = r.1.nodeNames ∧
       (∀ x, uc.ty? x = r.1.ty? x ∨
         (∃ s, initStr = some s ∧ uc.ty? x = some s ∧ ∃ u ∈ c.bbs,
-          x = N (prune cs0 bb (insts c) d q ru) pfx (u.1 ++ "_" ++ q) 0)) ∧
+          x = N (prune cs0 bb (insts c) d q ig ru) pfx (u.1 ++ "_" ++ q) 0)) ∧
       (∀ s, initStr = some s → ∀ u ∈ c.bbs,
-        uc.ty? (N (prune cs0 bb (insts c) d q ru) pfx (u.1 ++ "_" ++ q) 0) = some s) := by
+        uc.ty? (N (prune cs0 bb (insts c) d q ig ru) pfx (u.1 ++ "_" ++ q) 0) = some s) := by
   obtain ⟨cs0, u0, bb0, rest, r, uc1, hs, hbbs, hr, h1, h2, hm⟩ := seq_unfold' h
   have hbb : bb0 = bb := G.oneType (u0, bb0) (by rw [hbbs]; simp)
   subst hbb
-  have T := setup (ru := ru) hord G hig hs hr
+  have T := setup (ru := ru) hord G K hig hs hr
   obtain ⟨e1, e2, e3, e4⟩ := final_ty h1 h2
   refine ⟨cs0, r, T, hm, e1, e2, ?_, ?_⟩
   · intro x
@@ -42,7 +42,7 @@ theorem unfold_all {c : Circuit} {bb : BBox} {n : Nat} {d q : Name} {ig : List N
 
 theorem seq_sound (c : Circuit) (bb : BBox) (n : Nat) (d q : Name) (ig : List Name) (afo : Bool)
     (initStr : Option String) (ru : Bool) (pfx : String) (ord : Ord) (hord : OrdOK ord)
-    (G : SeqGood' c bb d q) (hig : d ∉ ig ∧ q ∉ ig) (hinit : ∀ s, initStr = some s → s = "0" ∨ s = "1")
+    (G : SeqGood' c bb d q) (K : NoClash c bb ig) (hig : d ∉ ig ∧ q ∉ ig) (hinit : ∀ s, initStr = some s → s = "0" ∨ s = "1")
     (uc : Circuit) (ioMap : List (Name × List Name))
     (h : Tx.sequentialUnroll c n d q ig afo initStr [] ru pfx ord = .ok (uc, ioMap))
     (v : Val) (hv : Consistent uc v) :
@@ -50,7 +50,7 @@ theorem seq_sound (c : Circuit) (bb : BBox) (n : Nat) (d q : Name) (ig : List Na
       (∀ o ∈ c.outputs, ∀ t, t < n → v (Tx.ioName ioMap o t) = w t o) ∧
       (∀ u ∈ c.bbs, ∀ t, t < n → v (Tx.ioName ioMap (u.1 ++ "_" ++ d) t) = w t (u.1 ++ "." ++ d)) ∧
       (∀ s, initStr = some s → ∀ u ∈ c.bbs, w 0 (u.1 ++ "." ++ q) = (s == "1")) := by
-  obtain ⟨cs0, r, T, hm, e1, e2, e3, e4⟩ := unfold_all hord G hig h
+  obtain ⟨cs0, r, T, hm, e1, e2, e3, e4⟩ := unfold_all hord G K hig h
   subst hm
   have hndu : uc.nodeNames.Nodup := by rw [e2]; exact T.I.wf.nodup
   -- `v` is consistent with the plain unrolling
@@ -64,17 +64,17 @@ theorem seq_sound (c : Circuit) (bb : BBox) (n : Nat) (d q : Name) (ig : List Na
       subst hx
       exact Or.inr (fun l b hg => by rw [gateFn_input] at hg; cases hg)
   obtain ⟨s1, s2, s3⟩ := T.I.sem T.C hv0
-  have hA := R12_removable G T.S
-  have hB := R3_removable (cs0.remove (R12 c bb d q)) (insts c) q ru
+  have hA := R12_removable G K T.S
+  have hB := R3_removable (cs0.remove (R12 c bb d q ig)) (insts c) q ru
   -- the value of a surviving node of the sequential circuit
-  have hback : ∀ t x, dropped c ig x = false → sname c ig x ∈ ord (prune cs0 bb (insts c) d q ru).io →
-      back c ig cs0 (R12 c bb d q) (R3 (cs0.remove (R12 c bb d q)) (insts c) q ru) (fun y => v (U t y)) x =
+  have hback : ∀ t x, dropped c ig x = false → sname c ig x ∈ ord (prune cs0 bb (insts c) d q ig ru).io →
+      back c ig cs0 (R12 c bb d q ig) (R3 (cs0.remove (R12 c bb d q ig)) (insts c) q ru) (fun y => v (U t y)) x =
         v (U t (sname c ig x)) := by
     intro t x hd hio
     have h3 := has_of_mem_io ((hord _).mem_iff.1 hio)
     rw [prune_eq, remove2_has] at h3
     exact back_val _ hd h3.2.1 h3.2.2
-  refine ⟨fun t => back c ig cs0 (R12 c bb d q) (R3 (cs0.remove (R12 c bb d q)) (insts c) q ru) (fun y => v (U t y)),
+  refine ⟨fun t => back c ig cs0 (R12 c bb d q ig) (R3 (cs0.remove (R12 c bb d q ig)) (insts c) q ru) (fun y => v (U t y)),
     ⟨?_, ?_⟩, ?_, ?_, ?_⟩
   · intro t ht
     apply back_consistent G.clean T.S hA hB
@@ -87,8 +87,8 @@ theorem seq_sound (c : Circuit) (bb : BBox) (n : Nat) (d q : Name) (ig : List Na
     rw [hback _ _ qd (by rw [qs]; exact qio), hback _ _ dd (by rw [ds]; exact dio), qs, ds]
     exact s2 t ht _ (mem_sio hu)
   · intro o ho t ht
-    obtain ⟨o3, os, od, _⟩ := out_survives G T.S ru ho
-    have oio : o ∈ ord (prune cs0 bb (insts c) d q ru).io := (hord _).mem_iff.2 (mem_union.2 (Or.inr o3))
+    obtain ⟨o3, os, od, _⟩ := out_survives G K T.S ru ho
+    have oio : o ∈ ord (prune cs0 bb (insts c) d q ig ru).io := (hord _).mem_iff.2 (mem_union.2 (Or.inr o3))
     show _ = back _ _ _ _ _ _ _
     rw [hback _ _ od (by rw [os]; exact oio), os, T.ioName oio ht]
     exact s3 o oio t ht
@@ -106,7 +106,7 @@ theorem seq_sound (c : Circuit) (bb : BBox) (n : Nat) (d q : Name) (ig : List Na
 
 theorem seq_complete (c : Circuit) (bb : BBox) (n : Nat) (d q : Name) (ig : List Name) (afo : Bool)
     (initStr : Option String) (ru : Bool) (pfx : String) (ord : Ord) (hord : OrdOK ord)
-    (G : SeqGood' c bb d q) (hig : d ∉ ig ∧ q ∉ ig) (hinit : ∀ s, initStr = some s → s = "0" ∨ s = "1")
+    (G : SeqGood' c bb d q) (K : NoClash c bb ig) (hig : d ∉ ig ∧ q ∉ ig) (hinit : ∀ s, initStr = some s → s = "0" ∨ s = "1")
     (uc : Circuit) (ioMap : List (Name × List Name))
     (h : Tx.sequentialUnroll c n d q ig afo initStr [] ru pfx ord = .ok (uc, ioMap))
     (w : Nat → Val) (hw : SeqRun' c d q n w)
@@ -114,13 +114,13 @@ theorem seq_complete (c : Circuit) (bb : BBox) (n : Nat) (d q : Name) (ig : List
     ∃ v, Consistent uc v ∧
       (∀ o ∈ c.outputs, ∀ t, t < n → v (Tx.ioName ioMap o t) = w t o) ∧
       (∀ u ∈ c.bbs, ∀ t, t < n → v (Tx.ioName ioMap (u.1 ++ "_" ++ d) t) = w t (u.1 ++ "." ++ d)) := by
-  obtain ⟨cs0, r, T, hm, e1, e2, e3, e4⟩ := unfold_all hord G hig h
+  obtain ⟨cs0, r, T, hm, e1, e2, e3, e4⟩ := unfold_all hord G K hig h
   subst hm
   have hndu : uc.nodeNames.Nodup := by rw [e2]; exact T.I.wf.nodup
-  have hA := R12_removable G T.S
-  have hB := R3_removable (cs0.remove (R12 c bb d q)) (insts c) q ru
+  have hA := R12_removable G K T.S
+  have hB := R3_removable (cs0.remove (R12 c bb d q ig)) (insts c) q ru
   -- the per-cycle valuations of the pruned circuit
-  have hw3 : ∀ t, t < n → Consistent (prune cs0 bb (insts c) d q ru) (pushVal c ig (w t)) := by
+  have hw3 : ∀ t, t < n → Consistent (prune cs0 bb (insts c) d q ig ru) (pushVal c ig (w t)) := by
     intro t ht
     rw [prune_eq]
     exact fwd_consistent G.clean T.S hA hB (hw.1 t ht)
@@ -132,10 +132,10 @@ theorem seq_complete (c : Circuit) (bb : BBox) (n : Nat) (d q : Name) (ig : List
     show pushVal c ig (w (t + 1)) (u.1 ++ "_" ++ q) = pushVal c ig (w t) (u.1 ++ "_" ++ d)
     rw [← qs, ← ds, pushVal_surv T.S _ qh qd, pushVal_surv T.S _ dh dd]
     exact hw.2 t ht u hu
-  have hio : ∀ x ∈ ord (prune cs0 bb (insts c) d q ru).io, x ∉ (prune cs0 bb (insts c) d q ru).inputs →
-      (prune cs0 bb (insts c) d q ru).has x = true := fun x hx _ => has_of_mem_io ((hord _).mem_iff.1 hx)
+  have hio : ∀ x ∈ ord (prune cs0 bb (insts c) d q ig ru).io, x ∉ (prune cs0 bb (insts c) d q ig ru).inputs →
+      (prune cs0 bb (insts c) d q ig ru).has x = true := fun x hx _ => has_of_mem_io ((hord _).mem_iff.1 hx)
   obtain ⟨k1, k2⟩ := T.I.complete T.C hio (fun t => pushVal c ig (w t)) hw3 hlink
-  refine ⟨valOf (prune cs0 bb (insts c) d q ru) pfx (ord (prune cs0 bb (insts c) d q ru).io) n
+  refine ⟨valOf (prune cs0 bb (insts c) d q ig ru) pfx (ord (prune cs0 bb (insts c) d q ig ru).io) n
     (fun t => pushVal c ig (w t)), ?_, ?_, ?_⟩
   · apply consistent_transfer e1 hndu T.I.wf.nodup k1
     intro x t hx
@@ -152,8 +152,8 @@ theorem seq_complete (c : Circuit) (bb : BBox) (n : Nat) (d q : Name) (ig : List
       rw [← hg, valOf_N T.I _ T.npos qio, ← qs, pushVal_surv T.S _ qh qd]
       exact hw0 s hs u hu
   · intro o ho t ht
-    obtain ⟨o3, os, od, oh⟩ := out_survives G T.S ru ho
-    have oio : o ∈ ord (prune cs0 bb (insts c) d q ru).io := (hord _).mem_iff.2 (mem_union.2 (Or.inr o3))
+    obtain ⟨o3, os, od, oh⟩ := out_survives G K T.S ru ho
+    have oio : o ∈ ord (prune cs0 bb (insts c) d q ig ru).io := (hord _).mem_iff.2 (mem_union.2 (Or.inr o3))
     rw [T.ioName oio ht, valOf_N T.I _ ht oio]
     have := pushVal_surv T.S (w t) oh od
     rw [os] at this
